@@ -12,7 +12,8 @@
    - C04_exact_everything: EVERY object stored under a tile path (needed or not, e.g. superseded
      partial tiles) is the canonical rendering of the committed leaf sequence and lies within it;
    - C04_only_staging_discarded; C04_immutable_not_rewritten (Backend contract of the store).
-   Leaf i carries index i by construction of the model's leaf lists (leaf_of ... (first+k));
+   - C04_leaf_i_carries_index_i: every leaf of every committed tree carries its own position as
+     leaf index (part of the chain invariant since the recompute-cache work: wfcp);
    referenced issuers are checked by the monitor C04.audit and the operation-level correspondence. *)
 From SL Require Import Merkle.TilesProofs Ctlog.Model Ctlog.Spec Ctlog.Theorems2 Ctlog.Inv3 Ctlog.Inv3Step Ctlog.Theorems3.
 Open Scope N_scope.
@@ -54,3 +55,9 @@ Print Assumptions C04_immutable_not_rewritten.
 Example C04_example : no_tamper Example.history1 /\
   exists P, published (run Example.toy_sha Example.history1 init) = Some P /\ cp_size P = 3.
 Proof. split; [apply no_tamperb_ok; vm_compute; reflexivity|]. vm_compute. eexists. split; reflexivity. Qed.
+
+Theorem C04_leaf_i_carries_index_i : forall (sha : bytes -> bytes) evs c ls,
+  In (c, ls) (w_lockhist (run sha evs init)) ->
+  forall j sl, nth_error ls j = Some sl -> l_idx (sl_leaf sl) = Z.of_nat j.
+Proof. exact committed_leaves_indexed. Qed.
+Print Assumptions C04_leaf_i_carries_index_i.
